@@ -138,11 +138,53 @@ long  vrt_fail_count(void) { return g_fail_cnt; }
 int   vrt_fail_fired(void) { return g_fail_fired; }
 void *vrt_fail_site(void) { return g_fail_site; }
 
+/* site log: return address of every fallible call, indexed by its K (for site-directed fault selection) */
+#define SITE_LOG_MAX (4 * 1024 * 1024)
+static void **volatile g_site_log;
+void vrt_site_log_start(void) {
+    t_internal++;
+    if (!g_site_log)
+        g_site_log = (void **)__real_calloc(SITE_LOG_MAX, sizeof(void *));
+    t_internal--;
+}
+/* one line per distinct call site: "site <addr> <count> <K1> <K2> ..." with up to `per` indices spread over its calls */
+void vrt_site_log_dump(FILE *f, int per) {
+    long n = g_fail_cnt < SITE_LOG_MAX ? g_fail_cnt : SITE_LOG_MAX;
+    if (!g_site_log)
+        return;
+    t_internal++;
+    char *done = (char *)__real_calloc((size_t)n + 1, 1);
+    long *ks   = (long *)__real_calloc((size_t)n + 1, sizeof(long));
+    for (long i = 0; i < n; i++) {
+        if (done[i])
+            continue;
+        void *s = g_site_log[i];
+        long  m = 0;
+        for (long j = i; j < n; j++)
+            if (g_site_log[j] == s) {
+                done[j] = 1;
+                ks[m++] = j + 1;
+            }
+        fprintf(f, "site %p %ld", s, m);
+        int want = per < 1 ? 1 : per;
+        if (m <= want)
+            for (long q = 0; q < m; q++) fprintf(f, " %ld", ks[q]);
+        else
+            for (int q = 0; q < want; q++) fprintf(f, " %ld", ks[(long)((double)q * (double)(m - 1) / (double)(want - 1 ? want - 1 : 1))]);
+        fprintf(f, "\n");
+    }
+    __real_free(done);
+    __real_free(ks);
+    t_internal--;
+}
+
 /* one fallible call: returns 1 if it must fail */
 static int fallible(void *site) {
     if (t_internal)
         return 0;
     long c = __sync_add_and_fetch(&g_fail_cnt, 1);
+    if (g_site_log && c <= SITE_LOG_MAX)
+        g_site_log[c - 1] = site;
     if (g_tracking)
         __sync_add_and_fetch(&g_led.n_alloc_calls, 1);
     if (g_fail_k && c == g_fail_k) {
